@@ -101,7 +101,7 @@ def run(prop, tier, seed, opts):
         # long random walks of the same state machine (TLC simulation): 24 operations each
         # (the thorough tier goes deep by walks: every history of 4 operations is 3.6 million histories / 5 GB since the source
         # table grew -- measured, TLC alone needs minutes and the replay hours; the exhaustive bound is 3 in both tiers)
-        nwalks = 6 if tier == "quick" else 2500
+        nwalks = 40 if tier == "quick" else 2500
         sres = V.run_tlc(scratch, "EngineLife", "MC_C01_sim.cfg", workers=1, timeout=900, sub="tlc-sim",
                          extra=["-simulate", "num=%d" % nwalks, "-depth", "25", "-seed", str(seed)])
         V.tlc_ok(sres, "EngineLife/MC_C01_sim.cfg")
